@@ -47,6 +47,18 @@ type Truth struct {
 	Seed uint64
 	mu   sync.Mutex
 	Segs []Segment
+	// Explicit, when set, is the ground truth itself (for streams whose content the harness
+	// does not choose, e.g. what a BAM writer hands to its BGZF writer); Claimed is how much
+	// of it the calls issued so far account for.
+	Explicit []byte
+	Claimed  int64
+}
+
+// Claim extends the part of the explicit ground truth that has been written by n bytes.
+func (t *Truth) Claim(n int) {
+	t.mu.Lock()
+	defer t.mu.Unlock()
+	t.Claimed += int64(n)
 }
 
 // CutLast shortens the last segment to n bytes (after a short write).
@@ -68,6 +80,9 @@ func (t *Truth) Append(n int, compressible bool) []byte {
 func (t *Truth) Len() int64 {
 	t.mu.Lock()
 	defer t.mu.Unlock()
+	if t.Explicit != nil {
+		return t.Claimed
+	}
 	if len(t.Segs) == 0 {
 		return 0
 	}
@@ -92,6 +107,9 @@ func (t *Truth) Matches(from int64, b []byte) bool {
 	}
 	t.mu.Lock()
 	defer t.mu.Unlock()
+	if t.Explicit != nil {
+		return from+int64(len(b)) <= int64(len(t.Explicit)) && string(t.Explicit[from:from+int64(len(b))]) == string(b)
+	}
 	i := 0
 	for _, s := range t.Segs {
 		for p := maxI(s.From, from); p < s.To && p < from+int64(len(b)); p++ {
